@@ -207,12 +207,31 @@ def print_assumptions(module, theorems):
 FORBIDDEN = re.compile(r"\b(Admitted|admit|Axiom|Axioms|Parameter|Parameters|Conjecture|Conjectures|Hypothesis|Hypotheses|Variable|Variables|Unset\s+Guard\s+Checking|Unset\s+Positivity\s+Checking|Unset\s+Universe\s+Checking|bypass_check|Admit\s+Obligations|native_compute)\b")
 
 
-def forbidden_scan():
+def coq_closure(rel):
+    """The files a Coq file depends on (transitively), by its Require lines."""
+    seen, todo = [], [rel]
+    while todo:
+        f = todo.pop()
+        if f in seen or not os.path.exists(os.path.join(COQ, f)):
+            continue
+        seen.append(f)
+        text = open(os.path.join(COQ, f)).read()
+        text = re.sub(r"\(\*.*?\*\)", "", text, flags=re.S)
+        for m in re.finditer(r"From\s+Sessions\s+Require\s+(?:Import|Export)?\s*(.*?)\.\s", text, flags=re.S):
+            for mod in m.group(1).split():
+                todo.append(mod.replace(".", "/") + ".v")
+        for m in re.finditer(r"(?<!From Sessions )Require\s+(?:Import|Export)?\s+((?:Sessions\.[\w.]+\s*)+?)\.\s", text, flags=re.S):
+            for mod in m.group(1).split():
+                todo.append(mod[len("Sessions."):].replace(".", "/") + ".v")
+    return sorted(seen)
+
+
+def forbidden_scan(files=None):
     """Textual scan of the hand-written development for declarations that
     would add to the trusted base. Variable(s)/Hypothesis inside a Section are
     allowed; everything else in the list is not."""
     bad = []
-    for rel in coq_files():
+    for rel in (files if files is not None else coq_files()):
         text = open(os.path.join(COQ, rel)).read()
         text = re.sub(r"\(\*.*?\*\)", lambda m: " " * len(m.group(0)), text, flags=re.S)
         depth = 0
@@ -366,7 +385,9 @@ def standard_proof_stage(chk, prop_module, theorems, extra_targets=None):
     ok, out, gen_ok = coq_build(targets)
     chk.coverage["gen_tables_ok"] = gen_ok
     chk.coverage["coq_build_log_tail"] = out[-1500:] if not ok else ""
-    bad = forbidden_scan()
+    closure = coq_closure("Properties/%s.v" % prop_module)
+    chk.coverage["coq_files_in_closure"] = closure
+    bad = forbidden_scan(closure)
     chk.coverage["forbidden_scan"] = bad
     chk.oblige("no Admitted/Axiom/Parameter/... in the development", not bad)
     if not ok:
